@@ -5,6 +5,21 @@ ROOT = os.path.dirname(os.path.abspath(__file__))
 
 MC = "model_checking"
 CHECKS = {
+ "C07": dict(design="§6 C07", technique="bounded-exhaustive enumeration of key x compression x prefix x hash alphabets and of every single-character / payload-length / SEC1 tag-and-coordinate deviation of valid encodings, accept-iff-valid decided by independent secp256k1 + Base58Check implementations",
+   text="Full products: key alphabet x compression (bytes/hex/WIF round trips, derived public key, HASH160, address string, locking script vs the reference); every network prefix 0..255 x hashes with 0..20 leading zero bytes (to_string/from_string/set_chain_params); get_unlocking_script succeeds iff HASH160(candidate key) equals the address hash for every prefix; every position x 63 characters substitution on valid WIFs and addresses; payloads of every length 0..40 under a valid checksum as address and as WIF; public-key candidates of every length 0..66, every tag byte x on-curve/off-curve/x>=p x-coordinates for 33 bytes, tags x (y, y+1, p-y, swapped) for 65 bytes, the identity byte. The library must accept exactly what the reference accepts.",
+   note="trusted base: refs::secp, refs::b58, refs::hashes; WIF prefixes other than 0x80, hybrid tags 06/07 and out-of-range scalars are observed only (statement leaves them open); panics on malformed input are counted and left to C09"),
+ "C08": dict(design="§6 C08", technique="bounded-exhaustive enumeration of seeds x all derivation paths up to depth 3 over a boundary index alphabet (every notation), deep chains, and every single-character / single-byte / length deviation of serialised keys, each compared with an independent BIP32 implementation; depth-overflow cases in isolated child processes",
+   text="31 seeds (BIP32 vector seeds, standard and non-standard lengths) x every path of depth 1-2 (thorough 3) over {0,1,2,2^31-2,2^31-1,2^31,2^31+1,2^32-1}: key, chain code, depth, index, parent fingerprint and both strings equal the reference at the final edge; derive_from_path in each notation; CKDpub(neuter(parent)) = neuter(CKDpriv(parent)) = library public derivation on every normal edge; hardened public derivation refused; chains of depth 10/100/255/256; every position x 57 characters on xprv/xpub strings, every payload byte x 16 (255) values without fixing the checksum, payload lengths 74..86 with valid checksum: a string the reference rejects must be rejected.",
+   note="trusted base: refs::b58 BIP32 (checked on BIP32 test vectors 1-4), refs::secp; 'm' alone and relative paths are pinned as errors by the repository's tests and excluded; non-standard seed lengths compared only when the library accepts them"),
+ "C11": dict(design="§6 C11", technique="bounded-exhaustive enumeration of sender x recipient x message-length x mode products through every ECIES entry point against an independent BIE1 construction, plus every single-bit flip, every truncation and every wrong key of serialised ciphertexts",
+   text="All ordered key pairs x compression forms x message lengths 0..48 and block/size boundaries x 3 patterns through ECIES::encrypt (both inclusion modes), PublicKey::encrypt_message, PrivateKey::encrypt_message and encrypt_with_ephemeral_private_key (ephemeral key supplied through the from_random seam): serialised bytes equal the reference BIE1 bytes, derive_cipher_keys equals SHA-512 of the reference ECDH point, decrypt inverts encrypt directly and after from_bytes(to_bytes()). Tamper leg: every bit of every base ciphertext at offset >= 4, every proper prefix, every alphabet key as wrong recipient/claimed sender must end in Err, never plaintext.",
+   note="trusted base: refs::secp, refs::aes, refs::hashes; hook: from_random seam; flips inside the 4 magic bytes are run and only counted (the library does not authenticate the received magic and the statement does not list it); from_bytes panics on truncations are counted and left to C09"),
+ "C18": dict(design="§6 C18", technique="bounded-exhaustive enumeration of transaction shapes x script forms x extended-field combinations through every JSON and CBOR entry-point pair with a differential round-trip oracle (PartialEq, wire bytes, txid, extended accessors); deep nesting in isolated child processes",
+   text="Every one-byte script the parser accepts and a script alphabet covering every ScriptBit form (opcodes, direct pushes, minimal and non-minimal PUSHDATA1/2/4 incl. zero-length, nested conditionals with/without ELSE and empty branches, all-digit hex) in script_sig, locking script, output script and coinbase position; inputs x {no extended field, satoshis, locking script, both} x 64-bit value alphabet; every tuple of 0..3 inputs x 0..3 outputs; each through JSON string, to_json Value, CBOR bytes and CBOR hex, for the transaction and for each TxIn alone: decode(encode(t)) must equal t, with equal wire bytes, txid and extended accessors; 64-bit values are read back from the JSON text independently.",
+   note="no independent encoder exists for the library's own format: the oracle is the round trip plus the wire form computed before encoding; objects are freshly built (empty sighash cache) because the derived PartialEq compares the cache"),
+ "C20": dict(design="§6 C20", technique="bounded-exhaustive enumeration of mode x key x IV x message-length x pattern products against an independent AES implementation (cross-checked with the openssl CLI), plus every truncation and every invalid/valid padding of CBC ciphertexts",
+   text="4 modes x key alphabet (incl. FIPS-197/SP 800-38A keys) x IV alphabet (incl. CTR blocks whose counter carries across bytes and the last value that does not wrap the low 64 bits) x every length 0..80 and size boundaries x patterns: ciphertext equals the reference, decrypt inverts encrypt, CBC length is 16*(len/16+1), CTR length equals len. Rejection leg: every prefix length of a 48-byte CBC ciphertext and 1759 manufactured final plaintext blocks (every illegal last byte, every single broken byte of every padding run, every valid padding) x 0-2 preceding blocks: Err exactly when the reference rejects, else the same plaintext.",
+   note="trusted base: refs::aes (FIPS-197 / SP 800-38A vectors; 468 comparisons against `openssl enc`); wrong key/IV sizes belong to C09; CTR compared only where the low 64 counter bits do not wrap, as the property states"),
  "C05": dict(design="§6 C05", technique="bounded-exhaustive enumeration of key x message x hash x mode x nonce/entropy alphabets through every signing entry point of the real code, each signature compared with an independent RFC 6979/ECDSA implementation and verified by an independent verifier; negative cases decided by the reference verifier",
    text="Full products of a boundary key alphabet (1,2,3,n-1,n-2,(n±1)/2,2^128, ordinary keys) x compression x 13 message lengths x 3 patterns x {SHA-256,SHA-256d} x both nonce byte-order modes: deterministic signatures must equal the reference RFC 6979 + low-S (r,s) bit for bit, be reproducible, verify under the reference verifier and under every library verifier with the key in both SEC1 forms. Pre-hashed digests at the edges of [0,2^256); caller nonces over the key alphabet (both R.y parities and both raw-s halves occur, counted in evidence); randomised nonces through a deterministic entropy seam. Negative leg (every single-bit flip of a 2-byte message, longer message, other hash, every other key) is decided by the reference verifier. ECDH for every ordered key pair equals the reference point and is symmetric.",
    note="trusted base: refs::secp (checked against published RFC 6979 secp256k1 vectors and a pure-Python implementation), refs::hashes; hook: entropy seam (verif_hooks::push_entropy); 256-bit values outside the alphabets are not covered — the primitives are delegated to k256, what the library itself contributes (hash selection, byte order, reduction, argument order) is what the alphabets separate"),
